@@ -41,11 +41,18 @@ def chords(reg, loc, neigh):
     R, Z = reg["arrays"]["Rxy"], reg["arrays"]["Zxy"]
     nx, ny = reg["nx"], reg["ny"]
     pinned, _ = gu.pinned_corner_mask(reg)
+    # the last y-row of the arrays is the upper neighbour's version of the shared edge
+    # (getRZBoundary); hy and the metric of the last cell were computed with the region's own
+    # end points, which differ from it by 1e-4..4e-3 m (C08 finding) - use the own points
+    own = reg.get("own_last") if reg["connections"].get("upper") is not None else None
     if loc == "centre":
         dxR = R["xlow"][1:, :] - R["xlow"][:-1, :]
         dxZ = Z["xlow"][1:, :] - Z["xlow"][:-1, :]
-        dyR = R["ylow"][:, 1:] - R["ylow"][:, :-1]
-        dyZ = Z["ylow"][:, 1:] - Z["ylow"][:, :-1]
+        yR, yZ = R["ylow"].copy(), Z["ylow"].copy()
+        if own is not None:
+            yR[:, -1], yZ[:, -1] = own[1::2, 0], own[1::2, 1]
+        dyR = yR[:, 1:] - yR[:, :-1]
+        dyZ = yZ[:, 1:] - yZ[:, :-1]
         valid = np.ones((nx, ny), bool)
     elif loc == "ylow":
         dxR = R["corners"][1:, :] - R["corners"][:-1, :]
@@ -63,9 +70,18 @@ def chords(reg, loc, neigh):
             dyR[:, -1] = up["arrays"]["Rxy"]["centre"][:, 0] - R["centre"][:, -1]
             dyZ[:, -1] = up["arrays"]["Zxy"]["centre"][:, 0] - Z["centre"][:, -1]
         valid &= np.isfinite(dyR)
+        if up is not None and any(p is not None for p in reg["xPointsAtEnd"]):
+            valid[:, -1] = False  # arc made of two halves measured to two versions of the edge
+        if lo is not None and any(p is not None for p in reg["xPointsAtStart"]):
+            valid[:, 0] = False
     else:  # xlow
-        dyR = R["corners"][:, 1:] - R["corners"][:, :-1]
-        dyZ = Z["corners"][:, 1:] - Z["corners"][:, :-1]
+        cR, cZ = R["corners"].copy(), Z["corners"].copy()
+        if own is not None:
+            pinm, _ = gu.pinned_corner_mask(reg)
+            keep = ~pinm[:, -1]
+            cR[keep, -1], cZ[keep, -1] = own[0::2, 0][keep], own[0::2, 1][keep]
+        dyR = cR[:, 1:] - cR[:, :-1]
+        dyZ = cZ[:, 1:] - cZ[:, :-1]
         valid = ~(pinned[:, 1:] | pinned[:, :-1])
         dxR = np.full((nx + 1, ny), np.nan)
         dxZ = np.full((nx + 1, ny), np.nan)
@@ -261,11 +277,15 @@ def check_artefact(ctx, a, stats):
                 # that the recorded sign finding cannot hide any other error in g_12
                 neg = v12 & (np.abs(code_cos + geo_cos) <= 1e-6) & (np.abs(code_cos - geo_cos) > 1e-6) & (not orth)
                 rep.check("g_12/sqrt(g_11*g_22pol)=e_x.e_y/(|e_x||e_y|)", loc, np.abs(code_cos - geo_cos),
-                          0.1 if orth else 1e-6, v12 & ~neg, extra=dict(code=code_cos, geometric=geo_cos))
+                          0.3 if orth else 1e-6, v12 & ~neg, extra=dict(code=code_cos, geometric=geo_cos))
                 rep.check("g_12 has the opposite sign of e_x.e_y (exact negation)", loc,
                           np.where(neg, 1.0, 0.0), 0.5, neg, extra=dict(code=code_cos, geometric=geo_cos))
                 # --- g_11 dx^2 = |Dx r|^2 : bracket from grad(psi).ex_hat sampled on the chord
                 lhs = A["g_11"][loc] * dpsi**2 / ex**2
+                if orth:
+                    # the file's g_11 = 1/(R Bp)^2 assumes beta = 0; the actual chord makes the
+                    # small angle beta with grad(psi) (second order, judged by C04)
+                    lhs = lhs * cosb**2
                 lo = np.full(R.shape, np.inf)
                 hi = np.zeros(R.shape)
                 sR, sZ = xchord_start(reg, loc, neigh)
@@ -278,6 +298,22 @@ def check_artefact(ctx, a, stats):
                     hi = np.maximum(hi, proj)
                 here = np.abs(gR * exR + gZ * exZ)
                 v11 = valid & np.isfinite(lhs) & np.isfinite(lo) & (lo > 0)
+                # next to an X-point grad(psi).e_x changes sign along a straight chord
+                pinq, _ = gu.pinned_corner_mask(reg)
+                if loc == "centre":
+                    v11 = v11 & ~(pinq[1:, 1:] | pinq[1:, :-1] | pinq[:-1, 1:] | pinq[:-1, :-1])
+                elif loc == "ylow":
+                    tq = np.zeros(R.shape, bool)
+                    tq[:, :-1] |= pinq[1:, 1:] | pinq[:-1, 1:]
+                    tq[:, 1:] |= pinq[1:, :-1] | pinq[:-1, :-1]
+                    tq |= pinq[1:, :] | pinq[:-1, :]
+                    v11 = v11 & ~tq
+                else:
+                    tq = np.zeros(R.shape, bool)
+                    tq[:-1, :] |= pinq[1:, 1:] | pinq[1:, :-1]
+                    tq[1:, :] |= pinq[:-1, 1:] | pinq[:-1, :-1]
+                    tq |= pinq[:, 1:] | pinq[:, :-1]
+                    v11 = v11 & ~tq
                 if opts.get("cap_Bp_ylow_xpoint") and loc == "ylow":
                     # the option deliberately replaces Bp at the y-faces next to an X-point:
                     # the metric there is self-consistent but no longer geometric
@@ -294,10 +330,16 @@ def check_artefact(ctx, a, stats):
                 v22 = valid & np.isfinite(ey) & (ey > 0)
                 # hy is exact only to the O(1/Nfine^2) chord error of the fine contour (C05)
                 nfine = float(opts.get("finecontour_Nfine", 100))
-                rep.check("poloidal g_22*dy^2 >= |Dy r|^2 (chord<=arc)", loc, ey / arc - 1, 20.0 / nfine**2, v22)
+                # ... plus the polygon error where the surface is strongly curved: (kappa*h)^2/8,
+                # kappa = flux-surface curvature at the point, h = fine-contour spacing
+                hRR, hZZ, hRZ = ref.hess(Rp, Zp)
+                kap = np.abs(hRR * tR * tR + 2 * hRZ * tR * tZ + hZZ * tZ * tZ) / gm
+                hfine = np.nansum(np.where(np.isfinite(ey), ey, 0.0), axis=1, keepdims=True) / nfine
+                allow = 20.0 / nfine**2 + (kap * hfine) ** 2 / 8.0
+                rep.check("poloidal g_22*dy^2 >= |Dy r|^2 (chord<=arc)", loc, ey / arc - 1, allow, v22)
                 tc_here = tR * cR + tZ * cZ
                 rep.check("poloidal g_22*dy^2 ~ |Dy r|^2 (chord >= arc*cos)", loc,
-                          (tc_here**2 * 0.5) - ey / arc, 0.0, v22 & (tc_here > 0))
+                          (tc_here**2 * 0.2) - ey / arc, allow, v22 & (tc_here > 0))
             # (v) y-z coupling vs zShift stored in the same file
             if has_bt and "zShift" in A:
                 zs = A["zShift"]
